@@ -1,6 +1,7 @@
 import OW.Kernels.Basic
 /-
-models/rr/sacramento.go — sacramento, makeUnitHydrograph, expression by expression.
+models/rr/sacramento.go — sacramento, makeUnitHydrograph, expression by expression, AS REPAIRED by
+/verif/fixes/sacramento-adimp-ratio.diff (`if ratio < 0 { ratio = 0 }` in the drainage loop, as in the NWS original).
 
 State row of one cell: [UprTensionWater, UprFreeWater, LwrTensionWater, LwrPrimaryFreeWater, LwrSupplFreeWater,
 AdditionalImperviousStore]. Inside one call the code works on `alzfpc = LwrPrimaryFreeWater·(1+side)` and
@@ -85,7 +86,9 @@ structure Inner (α : Type) where
 
 /-- one pass of `for inc := 1; inc <= ninc; inc++ { … }` -/
 def incBody (p : Params α) (c : Consts α) (uztwc pinc dinc duz dlzp dlzs hpl : α) (v : Inner α) : Inner α :=
-  let ratio := (v.adimc - uztwc) / p.lztwm
+  -- as repaired (fixes/sacramento-adimp-ratio.diff): the ADIMP saturation ratio is not allowed to go negative
+  let ratio0 := (v.adimc - uztwc) / p.lztwm
+  let ratio := if ratio0 < 0 then 0 else ratio0
   let addro0 := pinc * ratio * ratio
   -- baseflow from the lower zone, primary
   let bfp := if (0.0 : α) < v.alzfpc then v.alzfpc * dlzp else 0.0
@@ -149,7 +152,8 @@ def incBody (p : Params α) (c : Consts α) (uztwc pinc dinc duz dlzp dlzs hpl :
   let roimp1 := v.roimp + addro * p.adimp
   ⟨alzfpc5, alzfsc6, uzfwc4, lztwc2, adimc1, flobf2, flosf1, floin2, roimp1,
     v.tags ++ uz.2.2.2.2.2 ++ (if (0.0 : α) < pinc then (if pavI ≤ 0 then ["fill"] else ["surface"]) else ["no_pinc"]) ++
-    (if (0.0 : α) < v.alzfpc then [] else ["alzfpc_empty"]) ++ (if (0.0 : α) < v.alzfsc then [] else ["alzfsc_empty"])⟩
+    (if (0.0 : α) < v.alzfpc then [] else ["alzfpc_empty"]) ++ (if (0.0 : α) < v.alzfsc then [] else ["alzfsc_empty"]) ++
+    (if ratio0 < 0 then ["ratio_clamped"] else [])⟩
 
 /-- `for inc := 1; inc <= ninc; inc++` as recursion on the number of passes left -/
 def incLoop (p : Params α) (c : Consts α) (uztwc pinc dinc duz dlzp dlzs hpl : α) : Nat → Inner α → Inner α
